@@ -610,6 +610,10 @@ class NUMERIC(FieldType):
             # The column holds the sortable (unsigned integer) form of every
             # number, so the default must be of that type for floats as well
             default = typecode_max[self.sortable_typecode]
+            if numtype is float and not signed:
+                # Sortable form of the highest value an unsigned float field
+                # can decode
+                default = 2 ** 63 - 1
         elif not self.is_valid(default):
             raise Exception("The default %r is not a valid number for this "
                             "field" % default)
@@ -633,6 +637,10 @@ class NUMERIC(FieldType):
         numtype = self.numtype
         bits = self.bits
         signed = self.signed
+
+        if numtype is float:
+            # Every float (unsigned: every non-negative float) is sortable
+            return (float("-inf") if signed else 0.0), float("inf")
 
         # Calculate the minimum and maximum possible values for error checking
         min_value = from_sortable(numtype, bits, signed, 0)
